@@ -295,15 +295,15 @@ func Flush() {
 		samples = append(samples, s.v)
 	}
 	st := map[string]interface{}{
-		"evaluations":     r.evaluations,
-		"nontrivial":      r.nontrivial,
-		"distinct_local":  len(r.hashes),
-		"hashes_capped":   r.hashesFull,
-		"labels":          r.labels,
-		"counters":        r.counters,
-		"samples":         samples,
-		"exhaustive":      r.exhaustive,
-		"notes":           r.notes,
+		"evaluations":    r.evaluations,
+		"nontrivial":     r.nontrivial,
+		"distinct_local": len(r.hashes),
+		"hashes_capped":  r.hashesFull,
+		"labels":         r.labels,
+		"counters":       r.counters,
+		"samples":        samples,
+		"exhaustive":     r.exhaustive,
+		"notes":          r.notes,
 	}
 	b, _ := json.Marshal(st)
 	os.WriteFile(out, b, 0644)
